@@ -10,6 +10,17 @@ import traceback
 _MOD = None
 
 
+def _guard_mem():
+    import resource
+
+    from mc.space import WORKER_AS_LIMIT
+
+    try:
+        resource.setrlimit(resource.RLIMIT_AS, (WORKER_AS_LIMIT, WORKER_AS_LIMIT))
+    except (ValueError, OSError):
+        pass
+
+
 def _one(case):
     from mc.report import jhash
 
@@ -32,7 +43,7 @@ def main():
     if workers <= 1 or len(cases) < 8:
         results = [_one(c) for c in cases]
     else:
-        with mp.get_context("fork").Pool(workers) as pool:
+        with mp.get_context("fork").Pool(workers, initializer=_guard_mem) as pool:
             results = pool.map(_one, cases, chunksize=16)
     out = sys.stdout
     for r in results:
